@@ -136,7 +136,7 @@ def run():
     # table lemmas needed by the argument (same obligations as in C14, restricted to what C08 uses)
     wyobs = tabvc.run_family(tabvc.wyckoff_obligations, list(range(1, 231)))
     rep.obligations.extend(o for o in wyobs if o.id.split("[")[0] in ("wy.expr=matrix", "wy.integer", "wy.variables", "wy.orbit", "wy.shape"))
-    sections_parallel(rep, [("flag", _flag), ("wrapvalues", _wrapvalues), ("guard", _guard)])
+    sections_parallel(rep, [("flag", _flag), ("wrapvalues", _wrapvalues), ("guard", _guard), ("maps", _maps)])
     rep.extra["exhaustive"] = True
     rep.extra["explanation"] = ("for every tabulated position with free parameters the real solve loop and the real test-position construction are "
                                 "executed with symbolic parameters (all x,y,z); the guard of the enclosing function carries the post-condition")
@@ -279,6 +279,13 @@ def _guard(rep):
                contracts={REL + ":SymmetryAnalyzer._search_periodic_positions": search_contract}, max_paths=3000)
 
 
+
+def _maps(rep):
+    """the letters and orbit labels of the conventional atoms are those of their crystallographic orbit - not the equivalences of the cell in
+    which the crystal was given (which split orbits in supercells and make the parameter search fail); shared with C12/C07"""
+    from props import C12
+    C12._maps(rep)
+
 def replay_key(ob):
     w = ob.witness or {}
     return "%s-%s" % (w.get("sg"), w.get("letter"))
@@ -296,6 +303,9 @@ def replay(ob):
         r = tr.replay_wyckoff_params(sg, L)
         if r.get("reproduced"):
             return r
+    r = tr.replay_wyckoff_supercells()
+    if r.get("reproduced"):
+        return r
     return {"reproduced": False}
 
 
